@@ -59,6 +59,16 @@ DateSels ==
    <<DDaynum(B0(Dt(2021, 4, 10)), B0(Dt(2021, 4, 16)))>>,
    <<DSingle(B0(Dt(-1, 12, 25))), DRange(B0(Dt(-1, 7, 1)), B0(Dt(-1, 8, 15)))>>,
    <<MoR(1, 2, -1), DSingle(B0(Dt(-1, 12, 25)))>>}
+\* boundary dates of the calendar x year anchoring: the end of February (leap day), the year boundary, written as single
+\* dates and as ranges in both orders, with a year on no bound, on the start only, or on both
+EdgeDays == {<<2, 28>>, <<2, 29>>, <<3, 1>>, <<12, 31>>, <<1, 1>>}
+LeapFamily ==
+  {<<DRange(B0(Dt(ys, a[1], a[2])), B0(Dt(ye, b[1], b[2])))>> :
+      a \in EdgeDays, b \in EdgeDays, ys \in {-1, 2023, 2024}, ye \in {-1, 2024, 2025}}
+  \ {<<DRange(B0(Dt(ys, a[1], a[2])), B0(Dt(ye, a[1], a[2])))>> : a \in EdgeDays, ys \in {-1, 2023, 2024}, ye \in {-1, 2024, 2025}}
+\* (a range whose bounds are the same written date is a single date in the AST: excluded; a year on the end bound only is kept
+\*  for the parser and for totality, its meaning is left open)
+
 WeekSels == {<<Wk(1, 1, 1)>>, <<Wk(53, 53, 1)>>, <<Wk(1, 10, 1)>>, <<Wk(1, 53, 2)>>, <<Wk(50, 3, 1)>>, <<Wk(4, 4, 1), Wk(10, 20, 3)>>, <<Wk(9, 9, 1)>>}
 WeekdaySels ==
   {<<WdP(0, 0)>>, <<WdP(0, 4)>>, <<WdP(5, 1)>>, <<WdP(6, 6)>>, <<WdP(0, 0), WdP(2, 4)>>,
@@ -115,6 +125,7 @@ Modified == {[w EXCEPT !.kindword = kw, !.comment = c] :
                       Always("normal", "", ""), W("normal", <<>>, <<>>, <<>>, <<>>, <<>>, "", "")},
                kw \in KindWords, c \in Comments}
             \ {W("normal", <<>>, <<>>, <<>>, <<>>, <<>>, "", "")}
+Edge == {W("normal", <<>>, m, <<>>, <<>>, <<>>, "", "") : m \in LeapFamily}
 SingleRules == Alone \cup Pairs \cup Triples \cup Modified
 
 Base == {W("normal", <<>>, <<>>, <<>>, D1, T1, "", ""),
@@ -129,12 +140,13 @@ Seqs3 == {<<a, [b EXCEPT !.op = op1], [c EXCEPT !.op = op2]>> :
 \* the kind of a rule made of a comment only is left open (OSM: unknown; the repository pins open)
 CommentOnly(w) == ~w.always /\ w.year = <<>> /\ w.monthday = <<>> /\ w.week = <<>> /\ w.weekday = <<>> /\ ~w.written_time
                   /\ w.kindword = "" /\ w.comment # ""
-Case(ws, v) == [text |-> ShowExpr(ws, v), ast |-> DenExpr(ws), expect |-> "accept",
+Case(ws, v) == [text |-> ShowExpr(ws, v), ast |-> DenExpr(ws), expect |-> "accept", family |-> "general",
                 display |-> DisplayExpr(DenExpr(ws)),      \* what the library's printer must give for this AST (Display.tla)
                 comment_only |-> [i \in DOMAIN ws |-> CommentOnly(ws[i])]]
 
 SmallVariants == {Canonical, [Canonical EXCEPT !.semi = ";"], [Canonical EXCEPT !.closed = "off"]}
 Accepted == {Case(<<w>>, v) : w \in SingleRules, v \in Variants}
+       \cup {[Case(<<w>>, Canonical) EXCEPT !.family = "edge"] : w \in Edge}
        \cup {Case(ws, v) : ws \in Seqs2, v \in SmallVariants}
        \cup {Case(ws, Canonical) : ws \in Seqs3}
 
